@@ -95,6 +95,13 @@ func Read(r parser.ReadSeekSizer) (Info, error) {
 		if err != nil {
 			return nil, err
 		}
+		// The pairs belong to this subtable: the next subtable cannot start
+		// before they end, even if the length field is too small (it
+		// overflows for more than 10920 pairs).  Otherwise every subtable
+		// could re-read the data of all the following ones.
+		if end := p.Pos() + 6*int64(nPairs); pos < end {
+			pos = end
+		}
 		for j := 0; j < int(nPairs); j++ {
 			buf, err := p.ReadBytes(6)
 			if err != nil {
